@@ -139,3 +139,17 @@ CONTRACTS[M + "determine"] = dict(
     bounded_only="reflection over _Scale.__subclasses__() and set inclusion of strings; run-time contract over "
                  "battery 'note_sets'",
     properties=["C05"], battery="note_sets")
+
+
+# equality and inequality of scales follow BOTH note lists (melodic minor and Bachian ascend alike and differ descending).
+# ascending()/descending() are whatever the two objects' classes compute: opaque functions of the receiver here; what each
+# class computes is the subject of the contracts above.
+CLASSES["AnyScale"] = {"class": "mingus.core.scales._Scale", "fields": {"tonic": "str", "octaves": "int"}}
+_BOTH = "(self.ascending() == other.ascending() and self.descending() == other.descending())"
+for _nm, _neg in (("__eq__", ""), ("__ne__", "not ")):
+    CONTRACTS[M + "_Scale." + _nm] = dict(
+        params={"self": "AnyScale", "other": "AnyScale"}, returns="bool",
+        ensures=[("follows-both-note-lists", "result == (%s%s)" % (_neg, _BOTH))],
+        abstract_callees=[M + "_Scale.ascending", M + "_Scale.descending"], modifies=[],
+        inline_callees=[M + "_Scale.__eq__"] if _nm == "__ne__" else [],
+        properties=["C05"], battery="scale_pairs")
